@@ -16,9 +16,10 @@ import (
 )
 
 type zzGen struct {
-	W    *zzWorld
-	Objs []parser.K8sObject
-	Book *zzCidrBook
+	W          *zzWorld
+	Objs       []parser.K8sObject
+	Book       *zzCidrBook
+	ConcreteIP bool // ipBlock peers use fixed CIDRs (harnesses that need concrete peer names)
 }
 
 func zzPortVar(name string) int32 {
@@ -125,6 +126,9 @@ func (g *zzGen) zzPeersMenu(name string, k int) []netv1.NetworkPolicyPeer {
 	case 3:
 		return []netv1.NetworkPolicyPeer{{NamespaceSelector: zzSel("env", "prod")}}
 	case 4:
+		if g.ConcreteIP {
+			return []netv1.NetworkPolicyPeer{{IPBlock: &netv1.IPBlock{CIDR: "10.0.0.0/8", Except: []string{"10.1.0.0/16"}}}}
+		}
 		blk := &netv1.IPBlock{CIDR: g.Book.New(name + ".cidr")}
 		c := g.Book.last()
 		if vf_Choose(name+".nex", 2) == 1 {
@@ -195,6 +199,20 @@ func (g *zzGen) zzGenNPx(name, ns string, allowBothDirs, reduced bool) *netv1.Ne
 	return np
 }
 
+// zzGenNPTiny: selects every pod of the namespace, one ingress rule: peers {all, app=b} x ports {all, a symbolic TCP range}
+func (g *zzGen) zzGenNPTiny(name, ns string) *netv1.NetworkPolicy {
+	np := &netv1.NetworkPolicy{
+		TypeMeta:   metav1.TypeMeta{Kind: "NetworkPolicy", APIVersion: "networking.k8s.io/v1"},
+		ObjectMeta: metav1.ObjectMeta{Name: name, Namespace: ns},
+	}
+	rn := name + ".in"
+	np.Spec.Ingress = []netv1.NetworkPolicyIngressRule{{
+		From:  g.zzPeersMenu(rn, vf_Choose(rn+".peers", 2)),
+		Ports: zzPortsMenu(rn, vf_Choose(rn+".ports", 2)),
+	}}
+	return np
+}
+
 // ---- admin policy menus -------------------------------------------------------------------------
 
 func zzAdmSubject(k int) apisv1a.AdminNetworkPolicySubject {
@@ -219,15 +237,25 @@ func zzAdmPeerNs(k int) (*metav1.LabelSelector, *apisv1a.NamespacedPod) {
 
 func zzAdmPorts(name string, k int) *[]apisv1a.AdminNetworkPolicyPort {
 	switch k {
-	case 1:
+	case 1: // two entries: an explicit UDP port, then a port without protocol (defaults to TCP)
+		return &[]apisv1a.AdminNetworkPolicyPort{
+			{PortNumber: &apisv1a.Port{Protocol: corev1.ProtocolUDP, Port: zzPortVar(name + ".n")}},
+			{PortNumber: &apisv1a.Port{Port: zzPortVar(name + ".m")}},
+		}
+	case 2:
 		s, e := zzPortVar(name+".s"), zzPortVar(name+".e")
 		vf_Assume(s <= e)
 		return &[]apisv1a.AdminNetworkPolicyPort{{PortRange: &apisv1a.PortRange{Protocol: corev1.ProtocolTCP, Start: s, End: e}}}
-	case 2:
-		return &[]apisv1a.AdminNetworkPolicyPort{{PortNumber: &apisv1a.Port{Protocol: corev1.ProtocolUDP, Port: zzPortVar(name + ".n")}}}
 	case 3:
 		h := "http"
 		return &[]apisv1a.AdminNetworkPolicyPort{{NamedPort: &h}}
+	case 4: // SCTP range followed by a range without protocol
+		s, e := zzPortVar(name+".s"), zzPortVar(name+".e")
+		vf_Assume(s <= e)
+		return &[]apisv1a.AdminNetworkPolicyPort{
+			{PortRange: &apisv1a.PortRange{Protocol: corev1.ProtocolSCTP, Start: s, End: e}},
+			{PortRange: &apisv1a.PortRange{Start: s, End: e}},
+		}
 	}
 	return nil
 }
